@@ -15,3 +15,49 @@ fn date_len_two_args() {
     let want = if n0 == 0 && val(v0).is_some() { val(v0).unwrap() } else if n1 == 0 && val(v1).is_some() { val(v1).unwrap() } else { DateLength::Medium };
     assert!(got == want);
 }
+
+const FNAMES: [&str; 7] = ["currency", "number", "datetime", "date", "time", "list", "bogus"];
+
+#[kani::proof]
+#[kani::unwind(14)]
+fn name_dispatch() {
+    let skip: bool = kani::any();
+    let _g = SkipIcuCfgGuard::new(skip);
+    let i: usize = kani::any();
+    kani::assume(i < 7);
+    let v0: usize = kani::any();
+    kani::assume(v0 < 5);
+    let args = [("date_length", VALS[v0])];
+    let r = Formatter::from_name_and_args(FNAMES[i], Some(&args[..]));
+    let dl = match v0 { 0 => DateLength::Full, 1 => DateLength::Long, 2 => DateLength::Medium, 3 => DateLength::Short, _ => DateLength::Medium };
+    let want_variant = match i {
+        0 => Some(Formatter::Currency(CurrencyWidth::Short, CurrencyCode::default())),
+        1 => Some(Formatter::Number(GroupingStrategy::Auto)),
+        2 => Some(Formatter::DateTime(dl, TimeLength::Short)),
+        3 => Some(Formatter::Date(dl)),
+        4 => Some(Formatter::Time(TimeLength::Short)),
+        5 => Some(Formatter::List(ListType::Unit, ListStyle::Wide)),
+        _ => None,
+    };
+    // no format_* feature is on in this build: Ok only when skip is set
+    match (want_variant, r) {
+        (None, Ok(None)) => {}
+        (Some(w), Ok(Some(g))) => { assert!(skip && w == g); }
+        (Some(w), Err(g)) => { assert!(!skip && w == g); }
+        _ => { assert!(false); }
+    }
+}
+
+#[kani::proof]
+#[kani::unwind(14)]
+fn date_len_three_args() {
+    let n: [usize; 3] = kani::any(); let v: [usize; 3] = kani::any();
+    kani::assume(n[0] < 3 && n[1] < 3 && n[2] < 3 && v[0] < 5 && v[1] < 5 && v[2] < 5);
+    let len: usize = kani::any(); kani::assume(len <= 3);
+    let args = [(NAMES[n[0]], VALS[v[0]]), (NAMES[n[1]], VALS[v[1]]), (NAMES[n[2]], VALS[v[2]])];
+    let got = DateLength::from_args(Some(&args[..len]));
+    let val = |x: usize| match x { 0 => Some(DateLength::Full), 1 => Some(DateLength::Long), 2 => Some(DateLength::Medium), 3 => Some(DateLength::Short), _ => None };
+    let mut want = DateLength::Medium; let mut found = false;
+    let mut k = 0; while k < len { if !found && n[k] == 0 { if let Some(x) = val(v[k]) { want = x; found = true; } } k += 1; }
+    assert!(got == want);
+}
